@@ -18,7 +18,7 @@ import (
 
 // C15: reattach reaches the same live plugin; test mode never kills the server.
 
-var c15Scenarios = []string{"basic", "second-hop", "multi", "kill-b", "kill-a-then-b", "kill-both", "frozen-kill-b", "kill-a-then-reattach", "crash-then-reattach", "nothing-listens", "pid-reused", "dies-before-connect", "connect-fails-once", "testmode", "testmode-kill-many", "testmode-second-hop", "testmode-late", "testmode-long"}
+var c15Scenarios = []string{"basic", "second-hop", "multi", "kill-b", "kill-a-then-b", "kill-both", "frozen-kill-b", "kill-a-then-reattach", "crash-then-reattach", "nothing-listens", "pid-reused", "dies-before-connect", "connect-fails-once", "testmode", "testmode-kill-many", "testmode-second-hop", "testmode-late", "testmode-long", "testmode-versioned"}
 
 func init() {
 	Register(&Prop{ID: "C15",
@@ -415,6 +415,13 @@ func runC15TestMode(r *h.Run, proto, scen, ctx string, use func(*plugin.Client, 
 	if proto == "grpc" {
 		sc.GRPCServer = plugin.DefaultGRPCServer
 	}
+	if scen == "testmode-versioned" {
+		// versioned sets only: the server serves its lowest version (nobody
+		// gave it a list) and must say so in the configuration it hands out
+		sc.VersionedPlugins = map[int]plugin.PluginSet{2: h.PluginSet(proto, sh), 3: h.PluginSet(proto, plugins.NewShared("test-v3/"+proto))}
+		sc.Plugins = nil
+		sc.HandshakeConfig.ProtocolVersion = 0
+	}
 	go k.Trap(func() { plugin.Serve(sc) })
 	var rc *plugin.ReattachConfig
 	select {
@@ -425,6 +432,12 @@ func runC15TestMode(r *h.Run, proto, scen, ctx string, use func(*plugin.Client, 
 	}
 	if !rc.Test {
 		r.Violate("bad-reattach-config", ctx, "test-mode ReattachConfig has Test=false")
+	}
+	if scen == "testmode-versioned" && rc.ProtocolVersion != 2 {
+		r.Violate("bad-reattach-config", ctx+" protocol-version", fmt.Sprintf("the server serves its lowest version 2, its ReattachConfig says %d", rc.ProtocolVersion))
+	}
+	if string(rc.Protocol) != proto {
+		r.Violate("bad-reattach-config", ctx+" protocol", fmt.Sprintf("the server speaks %s, its ReattachConfig says %q", proto, rc.Protocol))
 	}
 	quiet := func() bool { return w.InjectedTotal() < 2*time.Second }
 	b := reattachClient(r, proto, rc, "B")
